@@ -170,12 +170,14 @@ def main():
         put(os.path.join(d, fam + '.lean'), '\n'.join(out) + '\n')
     out = ['-- GENERATED by trace/gen_lean.py from the tracer output of /repo — do not edit']
     for fam in fams: out.append('import GlmVerif.Gen.%s.%s' % (mod, fam))
-    out += ['namespace Glm.Gen.%s' % mod, 'open Glm', '']
+    out += ['set_option maxRecDepth 100000', 'namespace Glm.Gen.%s' % mod, 'open Glm', '']
+    out.append('def table : List (String × (List Nat → Unit)) := [%s]' % ', '.join('("%s", %s_L)' % (fam, fam) for fam in fams))
     out.append('def lookup (fam : String) (ks : List Nat) : Unit :=')
     for fam in fams:
         out.append('  if fam = "%s" then %s_L ks else' % (fam, fam))
     out.append('  default')
-    for fam in fams:
+    if '--no-lookup-thms' not in sys.argv:
+      for fam in fams:
         out.append('theorem lookup_%s : lookup "%s" = %s_L := by funext ks; simp [lookup]' % (fam, fam, fam))
     out.append('def all : List Unit := [%s]' % ', '.join(u['name'] for u in units if not u['err']))
     out.append('def failed : List (String × String) := [%s]' % ', '.join('("%s", "%s")' % f for f in failed))
